@@ -7,9 +7,9 @@ CONSTANTS
   Names = {"n1"}
   MaxRefs = 1
   Emit = TRUE
-  AliasMods = {"e", "a", "b"}
+  AliasMods = {"e"}
   NsAlias = FALSE
-  StarMode = "any"
+  StarMode = "chain"
   ModRefs = FALSE
 INVARIANT Agree
 INVARIANT Closed
